@@ -1,6 +1,7 @@
 """C05 — memory safety on untrusted input, the statically decidable clauses (DESIGN §4 C05)."""
 from .. import build, report, t0, irf
 from .. import oblig as _ob
+from .. import oblig
 from ..build import AnalysisBroken
 
 INIT_SITES = {
@@ -428,6 +429,35 @@ def p256_point_length_gate(chk):
     oblig.run_obligations(chk, obs)
 
 
+def guarded_length_is_the_one_used(chk, rule='length-guard-covers-the-value-used'):
+    """a length from which caller-chosen amounts are subtracted (xlen - hash_len - salt_len - 2 in PSS unpadding: the result bounds
+    the scan over the decrypted signature) must be the very value that the size guard compared against: a guard placed before the
+    length is adjusted (n_bitlen --) compares a different, larger value, and the subtraction can underflow for moduli of 8k+1 bits"""
+    TABLE = (('src/rsa/rsa_pss_sig_unpad.c', 'br_rsa_pss_sig_unpad', 'xlen'),)
+    for src, fn, var in TABLE:
+        U = oblig.funit(src)
+        F = U.func(fn)
+        ids = set(o['v'] for i, o in oblig.dbg_values(F, var) if o['k'] == 'i')
+        if not ids:
+            raise AnalysisBroken('%s: no SSA value for variable %s in %s' % (rule, var, fn))
+        guards, uses = set(), {}
+        for i in F.insts.values():
+            if i['op'] == 'icmp' and i['pred'] in ('ugt', 'uge', 'ult', 'ule'):
+                for o in i['ops']:
+                    if o['k'] == 'i' and o['v'] in ids:
+                        guards.add(o['v'])
+            if i['op'] == 'sub' and i['ops'][0]['k'] == 'i' and i['ops'][0]['v'] in ids and i['ops'][1]['k'] != 'c':
+                uses.setdefault(i['ops'][0]['v'], i)
+        if not uses or not guards:
+            raise AnalysisBroken('%s: %s has %d guarded values and %d variable subtractions of %s' % (rule, fn, len(guards), len(uses), var))
+        inst = '%s: every value of %s that a variable amount is subtracted from was compared by the size guard' % (fn, var)
+        badv = [v for v in uses if v not in guards]
+        if badv:
+            chk.violation(rule, inst, F.where(uses[badv[0]]), 'the subtraction uses a value of %s assigned after the guard compared an earlier one' % var, key='%s %s' % (rule, fn))
+        else:
+            chk.ok(rule, inst, F.where(list(uses.values())[0]), '%d subtraction sites, all on the guarded SSA value' % len(uses))
+
+
 def run(tier):
     chk = report.Check('C05', tier,
                        'Static bounds for the T0 virtual machines that parse all untrusted input (X.509, keys, PEM, both handshakes): '
@@ -458,6 +488,7 @@ def run(tier):
     suites_num_guard(chk)
     from . import c02
     c02.length_gates(chk)
+    guarded_length_is_the_one_used(chk)
     from .. import engio, oblig as _ob
     _ob.run_obligations(chk, engio.bounds_obligations())
     engio.offered_regions(chk)
